@@ -3,6 +3,9 @@ PROP = {'counts': {'quick': 200, 'thorough': 10000},
  'rule': 'same programs as C01 weighted to flush (WAL rotation) and reopen; the last sequence reported by '
          'statistics after every write, after every reopen, and the next WAL sequence are compared with the '
          'model; oracle = strictly greater after every acknowledged write, never smaller after reopen; '
-         'non-trivial as for C01',
+         'non-trivial as for C01; '
+         'programs also hold ApplyBatch calls with merge operands (mbatch: merge-only, mixed, empty; model '
+         'Engine.merge_batch / mixed_batch, theorems C08_*_m of EngineMerge.v), with a directed family where a '
+         'merge-only batch is the last write before a reopen; the bar of the oracle is never lowered by a reopen',
  'assumptions': ['as C01'],
  'partial': ''}
